@@ -69,7 +69,7 @@ func (sd *streamSide) start(c *harness.Ctx, conn net.Conn, prop string) {
 		var off int64
 		for _, w := range sd.plan {
 			if w.PauseMs > 0 {
-				time.Sleep(msec(w.PauseMs))
+				c.S.Sleep(msec(w.PauseMs))
 			}
 			buf := make([]byte, w.Size)
 			patFill(sd.dirOut, off, buf)
